@@ -389,6 +389,83 @@ Example C28_near_nonvacuous :
   end.
 Proof. vm_compute. repeat split; reflexivity. Qed.
 
+(* ---- near-tree encoding: descendants (frontier loop with a seen-set), roll-up, update == rebuild ---- *)
+(* the sorted, de-duplicated enumeration IS the brute-force descendant list; the frontier loop is
+   proved to terminate within the model's fuel (potential argument) *)
+Theorem C28_near_descendants : forall n edges p m r,
+  (forall c q, In (c, q) edges -> c < n /\ q < n) ->
+  from_edges n edges = inl p ->
+  forall y, y < n -> descendants (mk_index p (build_near p) m r) y = spec_desc p y.
+Proof.
+  intros n edges p m r Hr H y Hy.
+  destruct (from_edges_wf n edges p Hr H) as [[rk W] [_ [Hn _]]]. subst n.
+  apply (near_descendants p rk W); auto.
+Qed.
+
+Theorem C28_near_rollup : forall n edges p measure ops us,
+  (forall c q, In (c, q) edges -> c < n /\ q < n) ->
+  from_edges n edges = inl p ->
+  length measure = n -> (forall u, In u us -> fst u < n) ->
+  let ix0 := mk_index p (build_near p) None [] in
+  apply_updates (set_measure ix0 measure ops) us = Some (set_measure ix0 (upd_all measure us) ops) /\
+  forall y o, y < n -> (o = OCount \/ In o ops) ->
+    rollup (set_measure ix0 (upd_all measure us) ops) y o = Some (rollup_spec p (upd_all measure us) y o).
+Proof.
+  intros n edges p measure ops us Hr H Hm Hus.
+  destruct (from_edges_wf n edges p Hr H) as [[rk W] [_ [Hn _]]]. rewrite <- Hn in *.
+  apply (near_rollup_after_updates p rk W); auto.
+Qed.
+
+Example C28_near_rollup_nonvacuous :
+  match from_edges 5 [(2, 0); (3, 2); (4, 0); (4, 3); (3, 1)] with
+  | inl p => let ix := set_measure (mk_index p (build_near p) None []) [Some 1; Some 2; Some 4; Some 8; Some 16]%Z [OSum; OMin] in
+             descendants ix 1 = [1; 3; 4] /\ rollup ix 1 OSum = Some (RInt 26) /\
+             option_map (fun i => rollup i 1 OMin) (apply_updates ix [(4, Some (-3)%Z)]) = Some (Some (RInt (-3)))
+  | inr _ => False
+  end.
+Proof. vm_compute. repeat split; reflexivity. Qed.
+
+(* ================= EVERY encoding the probe can select or that can be forced ================= *)
+(* the statements of the property for every index build_enc can return, on every accepted poset *)
+Theorem C28_subsumes_desc : forall n edges p f en m r,
+  (forall c q, In (c, q) edges -> c < n /\ q < n) ->
+  from_edges n edges = inl p -> build_enc p f = inl en ->
+  forall x y, x < n -> y < n ->
+  subsumes (mk_index p en m r) x y = spec_subsumes p x y /\
+  NoDup (descendants (mk_index p en m r) y) /\
+  (forall z, In z (descendants (mk_index p en m r) y) <-> In z (spec_desc p y)) /\
+  descendant_count (mk_index p en m r) y = length (spec_desc p y).
+Proof.
+  intros n edges p f en m r Hr H He x y Hx Hy.
+  destruct (from_edges_wf n edges p Hr H) as [[rk W] [TO [Hn _]]]. subst n.
+  apply (all_subsumes_desc p rk f en m r W TO He); auto.
+Qed.
+
+(* roll-ups after EVERY sequence of measure updates (so update_measure == rebuild), all monoids *)
+Theorem C28_rollup : forall n edges p f en measure ops us,
+  (forall c q, In (c, q) edges -> c < n /\ q < n) ->
+  from_edges n edges = inl p -> build_enc p f = inl en ->
+  length measure = n -> (forall u, In u us -> fst u < n) ->
+  exists ix', apply_updates (set_measure (mk_index p en None []) measure ops) us = Some ix' /\
+    forall y o, y < n -> (o = OCount \/ In o ops) ->
+      rollup ix' y o = Some (rollup_spec p (upd_all measure us) y o).
+Proof.
+  intros n edges p f en measure ops us Hr H He Hm Hus.
+  destruct (from_edges_wf n edges p Hr H) as [[rk W] [TO [Hn _]]]. rewrite <- Hn in *.
+  apply (all_rollup p rk f en measure ops us W TO He); auto.
+Qed.
+
+Theorem C28_lca : forall n edges p f en m r,
+  (forall c q, In (c, q) edges -> c < n /\ q < n) ->
+  from_edges n edges = inl p -> build_enc p f = inl en ->
+  forall x y, x < n -> y < n ->
+  lowest_common_ancestors (mk_index p en m r) x y = spec_lca p x y.
+Proof.
+  intros n edges p f en m r Hr H He x y Hx Hy.
+  destruct (from_edges_wf n edges p Hr H) as [[rk W] [TO [Hn _]]]. subst n.
+  apply (all_lca p rk f en m r W TO He); auto.
+Qed.
+
 (* ---- per-chain suffix folds (chain encoding roll-ups), all chain lengths, all four monoids ---- *)
 Theorem C28_monoid_laws : forall o,
   (forall a b c, combine o a (combine o b c) = combine o (combine o a b) c) /\
@@ -425,50 +502,19 @@ Example C28_chain_suffix_nonvacuous :
   suffix_folds OMin (vals m') = [RInt 5; RInt 5; RInt 7; RNull]%Z.
 Proof. vm_compute. repeat split; reflexivity. Qed.
 
-(* ================= what is NOT carried by a theorem (visible, unproved) ================= *)
-(* Poset::from_edges rejects only cyclic inputs (the accepting direction is C28_from_edges_wf) *)
-Definition C28_from_edges_complete_full : Prop :=
-  forall n edges e, (forall c q, In (c, q) edges -> c < n /\ q < n) ->
-  from_edges n edges = inr e ->
+(* Poset::from_edges rejects ONLY cyclic inputs: whenever the covering relation admits a rank (is
+   acyclic) the poset is built, so together with C28_from_edges_wf the index exists for exactly the
+   acyclic covering relations *)
+Theorem C28_from_edges_complete : forall n edges err,
+  (forall c q, In (c, q) edges -> c < n /\ q < n) ->
+  from_edges n edges = inr err ->
   ~ exists rk : nat -> nat, forall c q, In (c, q) edges -> rk c < rk q.
+Proof. exact from_edges_complete. Qed.
 
-(* subsumption / descendants / count under EVERY encoding the probe can select or that can be forced
-   (proved for nested-set: C28_nested_reachable, and for chain: C28_chain_reachable; open for near-tree) *)
-Definition C28_subsumes_desc_full : Prop :=
-  forall p rk f en m r, wf_poset p rk -> topo_ok p -> build_enc p f = inl en ->
-  forall x y, x < pn p -> y < pn p ->
-  subsumes (mk_index p en m r) x y = spec_subsumes p x y /\
-  NoDup (descendants (mk_index p en m r) y) /\
-  (forall z, In z (descendants (mk_index p en m r) y) <-> In z (spec_desc p y)) /\
-  descendant_count (mk_index p en m r) y = length (spec_desc p y).
-
-(* roll-up = fold of the monoid over the brute-force descendant set, every encoding, every monoid
-   (proved for nested-set: C28_nested_rollup, and chain: C28_chain_rollup; open for near-tree) *)
-Definition C28_rollup_full : Prop :=
-  forall p rk f en measure ops, wf_poset p rk -> topo_ok p -> build_enc p f = inl en ->
-  length measure = pn p ->
-  forall y o, y < pn p -> (o = OCount \/ In o ops) ->
-  rollup (set_measure (mk_index p en None []) measure ops) y o = Some (rollup_spec p measure y o).
-
-(* a point update lands in the state a rebuild with the updated measure would produce
-   (proved for nested-set: C28_nested_update_commutes, and chain: C28_chain_rollup; open for near-tree) *)
-Definition C28_update_commutes_full : Prop :=
-  forall p rk f en measure ops node v, wf_poset p rk -> topo_ok p -> build_enc p f = inl en ->
-  length measure = pn p -> node < pn p ->
-  forall y o, y < pn p ->
-  option_map (fun ix => rollup ix y o)
-             (update_measure (set_measure (mk_index p en None []) measure ops) node v) =
-  Some (rollup (set_measure (mk_index p en None []) (upd measure node v) ops) y o).
-
-(* LCA set = minimal common ancestors (proved for nested-set: C28_lca_nested, chain: C28_lca_chain; open for near-tree) *)
-Definition C28_lca_full : Prop :=
-  forall p rk f en m r, wf_poset p rk -> topo_ok p -> build_enc p f = inl en ->
-  forall x y, x < pn p -> y < pn p ->
-  forall c, In c (lowest_common_ancestors (mk_index p en m r) x y) <-> In c (spec_lca p x y).
-
-Definition C28_full : Prop :=
-  C28_from_edges_complete_full /\ C28_subsumes_desc_full /\
-  C28_rollup_full /\ C28_update_commutes_full /\ C28_lca_full.
+Example C28_from_edges_complete_nonvacuous :
+  from_edges 3 [(0, 1); (1, 2); (2, 0)] = inr ENotAcyclic /\
+  (exists p, from_edges 3 [(0, 1); (1, 2); (0, 2)] = inl p).
+Proof. split; [vm_compute; reflexivity|eexists; vm_compute; reflexivity]. Qed.
 
 Print Assumptions C28_spec_closure.
 Print Assumptions C28_stale_until_rebuild.
@@ -485,6 +531,12 @@ Print Assumptions C28_chain_rollup.
 Print Assumptions C28_lca_nested.
 Print Assumptions C28_lca_chain.
 Print Assumptions C28_near_subsumes.
+Print Assumptions C28_near_descendants.
+Print Assumptions C28_near_rollup.
+Print Assumptions C28_subsumes_desc.
+Print Assumptions C28_rollup.
+Print Assumptions C28_lca.
+Print Assumptions C28_from_edges_complete.
 Print Assumptions C28_nested_subsumes.
 Print Assumptions C28_nested_desc.
 Print Assumptions C28_fenwick_build.
